@@ -79,11 +79,17 @@ impl Scripted {
 fn io_err(k: ErrorKind) -> VolatileMemoryError {
     VolatileMemoryError::IOError(std::io::Error::new(k, "scripted"))
 }
+/// "any other stream error ends the transfer and is reported": the scripted hard error rotates through error kinds
+/// (all of them are NOT `Interrupted`; in particular `WouldBlock`/EAGAIN must not be retried like EINTR)
+fn hard_kind(call: u64) -> ErrorKind {
+    [ErrorKind::Other, ErrorKind::WouldBlock, ErrorKind::TimedOut, ErrorKind::BrokenPipe, ErrorKind::ConnectionReset,
+     ErrorKind::PermissionDenied, ErrorKind::InvalidInput][(call % 7) as usize]
+}
 impl ReadVolatile for Scripted {
     fn read_volatile<B: BitmapSlice>(&mut self, buf: &mut VolatileSlice<B>) -> Result<usize, VolatileMemoryError> {
         match self.next() {
             Beh::Eintr => Err(io_err(ErrorKind::Interrupted)),
-            Beh::HardErr => Err(io_err(ErrorKind::Other)),
+            Beh::HardErr => Err(io_err(hard_kind(self.calls))),
             b => {
                 let k = Self::amount(b, buf.len()).min(self.src.len() - self.pos);
                 if k > 0 {
@@ -99,7 +105,7 @@ impl WriteVolatile for Scripted {
     fn write_volatile<B: BitmapSlice>(&mut self, buf: &VolatileSlice<B>) -> Result<usize, VolatileMemoryError> {
         match self.next() {
             Beh::Eintr => Err(io_err(ErrorKind::Interrupted)),
-            Beh::HardErr => Err(io_err(ErrorKind::Other)),
+            Beh::HardErr => Err(io_err(hard_kind(self.calls))),
             b => {
                 let k = Self::amount(b, buf.len());
                 let mut tmp = vec![0u8; k];
